@@ -328,7 +328,7 @@ func (sl *SlowLimiter) PreWaitQueue(ctx context.Context, cmd string, prefix stri
 	select {
 	case <-ctx.Done():
 		metric.SlowLimiterRefusedCnt.With(ps.Labels{
-			"table": prefix,
+			"table": metric.LabelValue(prefix),
 			"cmd":   cmd,
 		}).Inc()
 		return nil, ctx.Err()
@@ -338,12 +338,12 @@ func (sl *SlowLimiter) PreWaitQueue(ctx context.Context, cmd string, prefix stri
 	if cost >= time.Millisecond {
 		metric.SlowLimiterQueuedCost.With(ps.Labels{
 			"namespace": sl.ns,
-			"table":     prefix,
+			"table":     metric.LabelValue(prefix),
 			"cmd":       cmd,
 		}).Observe(float64(cost.Milliseconds()))
 	}
 	metric.SlowLimiterQueuedCnt.With(ps.Labels{
-		"table":      prefix,
+		"table":      metric.LabelValue(prefix),
 		"cmd":        cmd,
 		"slow_level": getSlowLevelDesp(slv),
 	}).Inc()
@@ -375,7 +375,7 @@ func (sl *SlowLimiter) CanPass(ts int64, cmd string, prefix string) bool {
 		// no slow while in half open state.
 		sl.addCounterOnly()
 		metric.SlowLimiterRefusedCnt.With(ps.Labels{
-			"table": prefix,
+			"table": metric.LabelValue(prefix),
 			"cmd":   cmd,
 		}).Inc()
 		return false
@@ -423,17 +423,17 @@ func (sl *SlowLimiter) RecordSlowCmd(cmd string, prefix string, cost time.Durati
 	}
 	if slv == verySlowLevel {
 		metric.SlowWrite100msCnt.With(ps.Labels{
-			"table": prefix,
+			"table": metric.LabelValue(prefix),
 			"cmd":   cmd,
 		}).Inc()
 	} else if slv == midSlowLevel {
 		metric.SlowWrite50msCnt.With(ps.Labels{
-			"table": prefix,
+			"table": metric.LabelValue(prefix),
 			"cmd":   cmd,
 		}).Inc()
 	} else if slv == minSlowLevel {
 		metric.SlowWrite10msCnt.With(ps.Labels{
-			"table": prefix,
+			"table": metric.LabelValue(prefix),
 			"cmd":   cmd,
 		}).Inc()
 	}
